@@ -203,7 +203,7 @@ pub fn execute(c: &LayoutCase) -> LayoutObs {
             o.decode = format!("{:?}", out.trace);
             o.decoded_tramp = out.hops.first().copied();
             // call only if the entry leads into the one mapping that was kept
-            if let (Some(d), true) = (o.decoded_tramp, live.len() == 1) {
+            if let (Some(d), true) = (o.decoded_tramp, !live.is_empty()) {
                 if live.contains_key(&(d & !0xFFF)) {
                     let full = x86_follow(&m, addr as u64, &[targets::f_u1 as fn() -> u64 as usize as u64], 6);
                     if matches!(full.end, X86End::Arrived { .. } | X86End::Ret { rax: Some(_), .. }) {
@@ -305,12 +305,16 @@ pub fn judge(rec: &mut Recorder, c: &LayoutCase, ex: Exec, _hello: &Value) -> Re
         let Some(tr) = o.decoded_tramp else {
             return rec.fail(&sig("entry-not-a-branch"), format!("entry does not decode to a branch: {}; case {c:?}", o.decode));
         };
-        if o.outstanding_after_install.len() != 1 {
-            return rec.fail(&sig("rejected-placement-left-mapped"), format!("after a successful installation {} mappings are outstanding (expected exactly the trampoline): {:x?}; case {c:?}", o.outstanding_after_install.len(), o.outstanding_after_install));
+        // whatever the installation keeps must be within range of the target (a placement that
+        // was tried and is out of range must have been given back), and the entry must branch
+        // into one of the kept mappings
+        for (a, _l) in &o.outstanding_after_install {
+            if a.abs_diff(o.target) > WINDOW as u64 {
+                return rec.fail(&sig("rejected-placement-left-mapped"), format!("after a successful installation an out-of-range mapping {a:#x} (target {:#x}) is still mapped; outstanding {:x?}; case {c:?}", o.target, o.outstanding_after_install));
+            }
         }
-        let (ta, tl) = o.outstanding_after_install[0];
-        if tr < ta || tr >= ta + tl.max(1) {
-            return rec.fail(&sig("branch-misses-trampoline"), format!("entry branches to {tr:#x} but the trampoline mapping is [{ta:#x},+{tl}); case {c:?}"));
+        if !o.outstanding_after_install.iter().any(|(ta, tl)| tr >= *ta && tr < ta + (*tl).max(1).max(4096)) {
+            return rec.fail(&sig("branch-misses-trampoline"), format!("entry branches to {tr:#x}, which is not inside a mapping the injector kept ({:x?}); case {c:?}", o.outstanding_after_install));
         }
         let expect = if c.boolean { 1 } else { 1001 };
         if o.call_value != Some(expect) {
